@@ -40,17 +40,32 @@ structure PCtx.WF (K : PCtx) : Prop where
   sp_le : K.sp + K.S ≤ memWords
   loc_sep : ∀ n a, K.loc n = some a → a < K.sp ∨ K.sp + K.S ≤ a + K.nlocals
 
+/-- The name `n` is bound to the `val` `w` (locally, or globally and not hidden). -/
+def ValBound (xc : X.Ctx) (σ : X.St) (n : String) (w : Word) : Prop :=
+  σ.locals.lookup n = some (.val w) ∨ (σ.locals.lookup n = none ∧ xc.genv.lookup n = some (.val w))
+
+theorem ValBound.read {xc : X.Ctx} {σ : X.St} {n : String} {w : Word} (h : ValBound xc σ n w) :
+    X.readName xc σ n = .ok (.int w) := by
+  unfold X.readName
+  rcases h with h | ⟨h1, h2⟩
+  · rw [h]
+  · rw [h1, h2]
+
 /-- The machine memory represents the source state. -/
 structure Rep (K : PCtx) (σ : X.St) (mem : Mem) : Prop where
   sp : mem.read 1 = BitVec.ofNat 32 K.sp
-  vals : ValsOk K.ρ K.xc σ
+  vals : ∀ n w, K.ρ n = some w → ValBound K.xc σ n w
   vars : ∀ n w, K.ρ n = none → X.readName K.xc σ n = .ok (.int w) →
     ∃ a, K.loc n = some a ∧ a < memWords ∧ mem.read a = w
   consts : ∀ v l j k, (v, l) ∈ K.consts → K.env.ds[j]? = some (.label k l) →
     mem.read (K.env.addr j / 4) = IAm.W v
 
+theorem Rep.valsOk {K : PCtx} {σ : X.St} {mem : Mem} (h : Rep K σ mem) : ValsOk K.ρ K.xc σ :=
+  fun n w hn => (h.vals n w hn).read
+
 theorem Rep.same {K : PCtx} {σ σ' : X.St} {mem : Mem} (h : Rep K σ mem) (hs : SameVars σ σ') : Rep K σ' mem :=
-  ⟨h.sp, h.vals.same hs, fun n w hn hr => h.vars n w hn (by rw [← readName_same K.xc σ σ' n hs]; exact hr), h.consts⟩
+  ⟨h.sp, fun n w hn => by have := h.vals n w hn; unfold ValBound at this ⊢; rw [hs.2.1]; exact this,
+   fun n w hn hr => h.vars n w hn (by rw [← readName_same K.xc σ σ' n hs]; exact hr), h.consts⟩
 
 /-- Memory changed at most in the frame slots with offsets in `[lo, hi)`. -/
 def Frm (K : PCtx) (lo hi : Nat) (mem mem' : Mem) : Prop :=
@@ -728,7 +743,7 @@ theorem execA_const (K : PCtx) (wf : K.WF) (e : X.Expr) (c : CInt) (fuel : Nat) 
     (hev : X.eval fuel K.xc e σ = .ok (.int v) σ') : ExecA K (annotate K.ρ e) v σ := by
   intro gs code gs' i a b mem io hg hat hr hsz hnl hci
   rw [genExpr_annot_const _ _ _ _ _ hc] at hg
-  have hv := annot_sound K.ρ K.xc fuel e σ v σ' c hp hr.vals hev hc
+  have hv := annot_sound K.ρ K.xc fuel e σ v σ' c hp hr.valsOk hev hc
   subst hv
   have st := exec_genConst K wf .A v gs gs' code σ i a b mem io hg hat hr hci
   exact ⟨b, mem, st, hr, Frm.refl _ _ _ _⟩
@@ -738,7 +753,7 @@ theorem execB_const (K : PCtx) (wf : K.WF) (e : X.Expr) (c : CInt) (fuel : Nat) 
     (hev : X.eval fuel K.xc e σ = .ok (.int v) σ') : ExecB K (annotate K.ρ e) v σ := by
   intro gs code gs' i a b mem io hg hat hr hci
   rw [genExpr_annot_const _ _ _ _ _ hc] at hg
-  have hv := annot_sound K.ρ K.xc fuel e σ v σ' c hp hr.vals hev hc
+  have hv := annot_sound K.ρ K.xc fuel e σ v σ' c hp hr.valsOk hev hc
   subst hv
   exact exec_genConst K wf .B v gs gs' code σ i a b mem io hg hat hr hci
 
@@ -769,7 +784,7 @@ theorem zero_of_constZero (K : PCtx) (e : X.Expr) (fuel : Nat) (σ σ' : X.St) (
   unfold AExpr.isConstZero at hz
   have hc : (optExpr (annotate K.ρ e)).const = some 0 := by simpa using hz
   obtain ⟨hc', _⟩ := opt_const K.ρ e 0 hc
-  exact annot_sound K.ρ K.xc fuel e σ v σ' 0 hp hr.vals hev hc'
+  exact annot_sound K.ρ K.xc fuel e σ v σ' 0 hp hr.valsOk hev hc'
 
 /-! ### The main theorem of stage (2) -/
 
@@ -787,7 +802,7 @@ theorem opnd_const (K : PCtx) (wf : K.WF) (e : X.Expr) (c : CInt) (fuel : Nat) (
   intro hz m hr
   unfold AExpr.isConstZero at hz
   have hc0 : (annotate K.ρ e).const = some 0 := by simpa using hz
-  exact annot_sound K.ρ K.xc fuel e σ0 v σ1 0 hp (hr.same hs.symm).vals hev hc0
+  exact annot_sound K.ρ K.xc fuel e σ0 v σ1 0 hp (hr.same hs.symm).valsOk hev hc0
 
 theorem opnd_of_eval (K : PCtx) (wf : K.WF) (e : X.Expr) (fuel : Nat) (σ0 σ1 σ : X.St) (v : Word)
     (hp : pureE e = true) (hev : X.eval fuel K.xc e σ0 = .ok (.int v) σ1) (hs : SameVars σ0 σ)
